@@ -260,10 +260,15 @@ CHECKS = {
         'paths), lib_inverse (standard script reported with exactly the standard type, address, network), foreign_network_refused, '
         'foreign_network_object_refused; table side conditions (prefix unambiguity, which networks share all prefixes) by vm_compute so an ambiguous table '
         'edit breaks a proof; network_table_is_spec (regenerated prefix table = frozen specification table). Tie: all networks x types x witness versions x lengths x '
-        'creation paths, all 110 ordered network pairs; the oracle takes prefixes from the frozen table, never from /repo.',
+        'creation paths, all 110 ordered network pairs; the oracle takes prefixes from the frozen table, never from /repo.'
+        ' Round 2: lib_inverse_tx / lib_reparse_is_destination / lib_address_tx_roundtrip (through Transaction.parse), lib_lock_is_spec_hdkey (HDKey destinations, every witness type '
+        'and multisig flag), push_classifier_is_modelled (scripts.get_data_type probed on a regenerated table = the model), hash_pushes_are_data, to_bytes_only_touches_hex_text. Tie: '
+        'about 100 ADVERSARIAL payloads per length (DER-, key-, script-, opcode-, number- and hex-text-shaped) for every type and network in both directions and through raw transactions; '
+        'HDKey / Key / Address objects in every construction form; contradicting hints. Payload theorems carry the guard hex_guard (complement of the known finding ascii_hex_payload).',
    design_ref='DESIGN.md section 6 C05, section 9',
-   note='The address STRING codec is abstract here (decoded content); strings are C11. public_key= and HDKey lock-script paths by correspondence only. Three '
-        'defects repaired by fix: commits (witness version into script, foreign-network Address objects, p2sh-segwit Address objects). Closed under the global context.',
+   note='The address STRING codec is abstract here (decoded content); strings are C11. public_key= and HDKey lock-script paths by correspondence only. Four '
+        'defects repaired by fix: commits (witness version into script, foreign-network Address objects, p2sh-segwit Address objects, address next to a public key); one known '
+        'finding (ascii_hex_payload: to_bytes decodes binary payloads that read as hex text). Closed under the global context.',
    technique='Coq proof (finite shape enumeration x symbolic payload bytes by vm_compute) + exhaustive differential correspondence'),
  'C01': dict(
    text='Gallina model of Transaction.signature / signature_hash / signature_segwit / raw(sign_id, hash_type, "legacy") and Input.update_scripts '
